@@ -82,6 +82,9 @@ int hwloc_bitmap_compare_first__q(const struct hwloc_bitmap_s *set1, const struc
 REQ(BMQ(set1))
 REQ(__CPROVER_pointer_equals(set2, set1) || BMQ(set2))
 REQ(g_i < 64 && g_k <= QB && q_case >= 1 && q_case <= 6)
+#ifdef Q_CASE            /* one hypothesis per run (SMT runs) */
+REQ(q_case == Q_CASE)
+#endif
 REQ(q_case == 1 ==> (FIRSTAT(set1, ka1) && NOBITUPTO(set2, ka2)))     /* first(1) = X < first(2)  */
 REQ(q_case == 2 ==> (FIRSTAT(set2, kb1) && NOBITUPTO(set1, kb2)))     /* first(2) = X < first(1)  */
 REQ(q_case == 3 ==> (FIRSTAT(set1, kc1) && FIRSTAT(set2, kc2)))       /* same first bit           */
